@@ -227,6 +227,38 @@ theorem p2pkhFromScript_barePubkey (H160 : Bytes → Bytes) (chain : ChainParams
       List.length_cons, List.length_append, hl]
     simp [hs', hl', subclassFromBytes, base58FromBytes_pubkey chain _ hv hne, Spec.Addr.barePubkeyAddr]
 
+/-- the public dispatcher on a bare-pubkey script: no other matcher fires (lengths 35 / 67) -/
+theorem fromScript_barePubkey (H160 : Bytes → Bytes) (chain : ChainParams) (pk : Bytes)
+    (hl : pk.length = 33 ∨ pk.length = 65) (hv : chain.pubkeyAddr < 256)
+    (hne : chain.pubkeyAddr ≠ chain.scriptAddr) :
+    fromScript H160 chain (Spec.Addr.barePubkeyScript pk) = .ok (Spec.Addr.barePubkeyAddr H160 chain pk) := by
+  have hp := p2pkhFromScript_barePubkey H160 chain pk hl hv hne
+  have hlen : (Spec.Addr.barePubkeyScript pk).length = pk.length + 2 := by
+    simp [Spec.Addr.barePubkeyScript]
+  have hw1 : p2wshFromScript (Spec.Addr.barePubkeyScript pk) = .error .addrerr := by
+    rcases hl with h | h <;> simp [p2wshFromScript, isWitnessV0Scripthash, hlen, h]
+  have hw2 : p2wpkhFromScript (Spec.Addr.barePubkeyScript pk) = .error .addrerr := by
+    rcases hl with h | h <;> simp [p2wpkhFromScript, isWitnessV0Keyhash, hlen, h]
+  have hw3 : p2shFromScript chain (Spec.Addr.barePubkeyScript pk) = .error .addrerr := by
+    rcases hl with h | h <;> simp [p2shFromScript, isP2sh, hlen, h]
+  simp only [fromScript, hw1, hw2, hw3, hp, orElse_ok, orElse_addrerr]
+
+/-- with `accept_bare_checksig=False` the bare-pubkey script is refused -/
+theorem p2pkhFromScript_barePubkey_off (H160 : Bytes → Bytes) (chain : ChainParams) (pk : Bytes)
+    (hl : pk.length = 33 ∨ pk.length = 65) :
+    p2pkhFromScript H160 chain (Spec.Addr.barePubkeyScript pk) true false = .error .addrerr := by
+  have hc := canonicalize_barePubkey pk (by omega) (by omega)
+  unfold Spec.Addr.barePubkeyScript at hc ⊢
+  rcases hl with hl | hl
+  · rw [hl] at hc ⊢
+    simp only [p2pkhFromScript, hc, if_true, isWitnessV0Keyhash, isWitnessV0NestedKeyhash,
+      List.length_cons, List.length_append, hl]
+    simp
+  · rw [hl] at hc ⊢
+    simp only [p2pkhFromScript, hc, if_true, isWitnessV0Keyhash, isWitnessV0NestedKeyhash,
+      List.length_cons, List.length_append, hl]
+    simp
+
 /-! ### to_scriptPubKey on the prescribed addresses -/
 
 theorem pushEnc_short (d : Bytes) (h : d.length < 0x4c) : pushEnc d = .ok (UInt8.ofNat d.length :: d) := by
